@@ -3,10 +3,14 @@ package checks
 import (
 	"encoding/json"
 	"fmt"
+	"io"
+	"net/http"
 	"net/http/httptest"
 	"os"
 	"path/filepath"
 	"strings"
+	"sync"
+	"sync/atomic"
 	"testing"
 
 	textwire "github.com/textwire/textwire/v2"
@@ -61,6 +65,39 @@ var defaultErrorPageSrc = func() string {
 	return string(b)
 }()
 
+var (
+	c17SrvOnce sync.Once
+	c17Srv     *httptest.Server
+	c17Handler atomic.Pointer[func(http.ResponseWriter)]
+)
+
+// c17OverHTTP runs write as the handler of one request to a local server and
+// returns what the client read.
+func c17OverHTTP(write func(http.ResponseWriter)) (string, string) {
+	c17SrvOnce.Do(func() {
+		defer func() { recover() }() // no loopback interface: the comparison is skipped
+		c17Srv = httptest.NewServer(http.HandlerFunc(func(w http.ResponseWriter, r *http.Request) {
+			if h := c17Handler.Load(); h != nil {
+				(*h)(w)
+			}
+		}))
+	})
+	if c17Srv == nil {
+		return "", "unavailable"
+	}
+	c17Handler.Store(&write)
+	resp, err := http.Get(c17Srv.URL)
+	if err != nil {
+		return "", "request failed: " + err.Error()
+	}
+	defer resp.Body.Close()
+	b, err := io.ReadAll(resp.Body)
+	if err != nil {
+		return string(b), "read error: " + err.Error()
+	}
+	return string(b), ""
+}
+
 func c17Run(c *harness.Check, cs respCase) string {
 	tr := tree.Tree{}
 	dir, ext := "t", ".tw"
@@ -91,6 +128,12 @@ func c17Run(c *harness.Check, cs respCase) string {
 		w := httptest.NewRecorder()
 		rerr := tpl.Response(w, cs.Page, data)
 		body := w.Body.String()
+		// what a client of a real net/http server receives is the same body (a server
+		// enforces the headers the handler sets; a recorder does not)
+		if got, herr := c17OverHTTP(func(hw http.ResponseWriter) { tpl.Response(hw, cs.Page, cs.Data.GoMap()) }); herr != "unavailable" && (herr != "" || got != body) {
+			failure = fmt.Sprintf("over a net/http server the client receives %q (%s), the recorder holds %q", clip(got, 200), herr, clip(body, 200))
+			return
+		}
 		if ferr == nil {
 			if cs.Fails {
 				// the run-time fault did not fail the render: whatever else that
@@ -194,7 +237,7 @@ func c17Page(rt *rapid.T) (files map[string]string, page string, markers []strin
 		m := fmt.Sprintf("MARK-%d-%s", i, rapid.StringMatching("[a-z]{4}").Draw(rt, "mark"))
 		markers = append(markers, m)
 		// (percent signs: what is written to the response is data, never a format)
-		b.WriteString("<p style=\"width: 100%;\">" + m + " 50% off %d %s %%</p>\n")
+		b.WriteString("<p style=\"width: 100%;\">" + m + " 50% off %d %s %% – Zoë’s café</p>\n")
 	}
 	fault := rapid.SampledFrom([]string{"{{ zzMissing }}", "{{ 1 / 0 }}", "{{ name + 1 }}", "{{ name.nosuchfn() }}", "{{ {a: 1}.zz }}"}).Draw(rt, "fault")
 	shape := rapid.SampledFrom([]string{"ok", "ok-layout", "top", "in-loop", "in-layout", "in-component", "in-slot", "missing"}).Draw(rt, "shape")
@@ -242,7 +285,7 @@ func TestC17_Configurations(t *testing.T) {
 			// character (also ones that occur in the extension), with or without dots
 			cs.ErrorPage = rapid.SampledFrom([]string{"errors/custom", "fault", "errors/show", "e", "w", "errors/internal.t", "err.tw", "x/y/z/oops", "500", "tw"}).Draw(rt, "customName")
 			// the error page is rendered on its own: names of the failed page's data mean nothing in it
-			files[cs.ErrorPage] = rapid.SampledFrom([]string{"<h1>CUSTOM-ERROR-PAGE</h1>{{ 1 + 1 }}", "<h1 style=\"width: 100%;\">CUSTOM-ERROR-PAGE</h1>{{ name = 404 }}{{ name + 1 }} (20%) %s %d %%", "{{ title = 5; name = [1] }}<h1>CUSTOM-ERROR-PAGE</h1>100%"}).Draw(rt, "customBody")
+			files[cs.ErrorPage] = rapid.SampledFrom([]string{"<h1>CUSTOM-ERROR-PAGE</h1>{{ 1 + 1 }}", "<h1 style=\"width: 100%;\">CUSTOM-ERROR-PAGE</h1>{{ name = 404 }}{{ name + 1 }} (20%) %s %d %%", "{{ title = 5; name = [1] }}<h1>CUSTOM-ERROR-PAGE</h1>100% Désolé…"}).Draw(rt, "customBody")
 		case "missing":
 			cs.ErrorPage = "errors/nosuch"
 		case "failing":
